@@ -699,12 +699,6 @@ func hevcSiteOf(kind string) string {
 // classifyHevc maps the list of mismatching field names of a failing HEVC case to a failure class ("" = default).
 func classifyHevc(c caseLine, bad []string) string {
 
-	// slice cases generated outside the guard of the known finding carry the id suffix "k": the short-term
-	// RPS in force is inter-predicted, its used_by_curr_pic flags are not derived by the parser, and the
-	// slice reaches ref_pic_lists_modification()
-	if c.kind == "HSLICE" && strings.HasSuffix(c.id, "k") {
-		return "inter-rps-used-flags-not-derived"
-	}
 	return ""
 }
 
